@@ -442,6 +442,14 @@ def check_none_defaults(chk, repo):
                         node.comparators[0].value) == 'self' \
                         and node.comparators[0].attr in attrs:
                     use = node.comparators[0].attr
+                kind = 'TypeError'
+                if isinstance(node, ast.Attribute) and isinstance(
+                        node.value, ast.Attribute) and dotted(
+                        node.value.value) == 'self' \
+                        and node.value.attr in attrs:
+                    # self.X.method / self.X.attr: None has neither
+                    use = node.value.attr
+                    kind = 'AttributeError'
                 if use is None:
                     continue
                 n += 1
@@ -452,7 +460,7 @@ def check_none_defaults(chk, repo):
                     if isinstance(par, ast.Try) and p in par.body:
                         for h in par.handlers:
                             if shapes._catches(shapes._handler_names(h),
-                                               'TypeError') and h.body and \
+                                               kind) and h.body and \
                                     isinstance(h.body[-1], ast.Raise):
                                 guarded = True
                     if isinstance(par, ast.BoolOp) and isinstance(
